@@ -126,11 +126,13 @@ pub fn run_cli_opts(dir: &Path, args: &[String], hash_seed: u64, sched: Option<S
       if let Some(s) = &sched2 {
         s.begin_consumer();
         ast_grep::verif::install(s.clone());
+        agsim_sync::install_hooks(Some(s.clone()));
       }
       let r = std::panic::catch_unwind(std::panic::AssertUnwindSafe(|| ast_grep::main_with_args(args.into_iter())));
       let _ = std::io::stdout().flush();
       let sres = sched2.as_ref().map(|s| s.finish());
       ast_grep::verif::uninstall();
+      agsim_sync::install_hooks(None);
       let _ = std::io::stdout().flush();
       let stdout = cap_out.finish();
       let stderr = cap_err.finish();
